@@ -1,6 +1,8 @@
 """C05 - tokenizer: total, lossless, position-accurate, classifies by grammar."""
 from __future__ import annotations
 
+from sa.core import pool_repo as core_pool_repo, pmap as core_pmap  # noqa: E402
+
 import ast
 
 from sa import rx
@@ -391,10 +393,9 @@ def _tokenizer_model(repo):
 def tokenize_text(repo, text_, fullsheet=True, comments=True):
     from sa.absint import Evaluator, Record
 
-    key = id(repo)
-    if key not in _TOKEVAL:
-        _TOKEVAL[key] = _tokenizer_model(repo)
-    fn, tm, matches, cp, by = _TOKEVAL[key]
+    if getattr(repo, '_tokenizer_model', None) is None:
+        repo._tokenizer_model = _tokenizer_model(repo)  # kept on the Repo object: one model per analysed tree
+    fn, tm, matches, cp, by = repo._tokenizer_model
     me = Record(tokenmatches=matches, _doComments=comments, _pushed=[], commentmatcher=by['COMMENT'], urimatcher=by['URI'])
     return Evaluator(fn, intrinsics={'CSSProductions': cp, 'sys': Record(maxunicode=0x10FFFF)}, module=tm, cls='Tokenizer').run(self=me, text=text_, fullsheet=fullsheet)
 
@@ -440,7 +441,7 @@ def _pos_job(args):
     root, texts = args
     from sa.core import Repo
 
-    repo = Repo(root)
+    repo = core_pool_repo(root)
     res = []
     for t in texts:
         p = _position_problems(repo, t)
@@ -464,9 +465,7 @@ def r05i(chk, rid='R05.i', thorough=False):
     chunks = [(root, texts[i::jobs * 4]) for i in range(jobs * 4)]
     if len(texts) < 3000:
         raise AnalysisError('R05.i: corpus too small')
-    ctx = mp.get_context('fork')
-    with ctx.Pool(jobs) as pool:
-        res = [x for part in pool.map(_pos_job, chunks) for x in part]
+    res = [x for part in core_pmap(chk.repo, _pos_job, chunks, jobs) for x in part]
     chk.extra['tokenizer_position_texts'] = len(texts)
     # group by the kind of problem so that one cause is one finding
     groups = {}
